@@ -61,6 +61,9 @@ func costOf(tx types.Tx) *big.Int {
 	case *types.UTXOTransaction:
 		for _, in := range v.Inputs {
 			if ai, ok := in.(*types.AccountInput); ok {
+				if v.TokenID != common.EmptyAddress {
+					return new(big.Int).Set(v.Fee) // the amount comes out of the token balance, the fee out of the native one
+				}
 				return new(big.Int).Set(ai.Amount)
 			}
 		}
@@ -282,7 +285,7 @@ func runHistory(t *rapid.T, concurrent bool) {
 	default:
 		vstat.Label("pool_default")
 	}
-	e.s = chainsim.New(t, chainsim.Options{NumAccts: rapid.IntRange(2, 4).Draw(t, "naccts"), NumWallets: 2, AllRich: true, RealCache: true, MempoolCfg: mc, Wasm: true, MultiSign: true})
+	e.s = chainsim.New(t, chainsim.Options{NumAccts: rapid.IntRange(2, 4).Draw(t, "naccts"), NumWallets: 2, AllRich: true, RealCache: true, MempoolCfg: mc, Wasm: true, MultiSign: true, Tokens: true})
 	e.s.UnderpayRate = 4
 	defer e.s.Close()
 	// seed the confidential pool (one transaction per block: the generated pool may hold a single transaction),
@@ -318,7 +321,7 @@ func runHistory(t *rapid.T, concurrent bool) {
 
 	nops := rapid.IntRange(3, 30).Draw(t, "nops")
 	for i := 0; i < nops; i++ {
-		op := rapid.SampledFrom([]string{"next", "next", "next", "future", "future", "dup", "stale", "underfunded", "lowfee-a2u", "a2u", "uspend", "uspend", "reap", "commit-own", "commit-own", "commit-other", "upgrade", "upgrade", "rotate"}).Draw(t, "op")
+		op := rapid.SampledFrom([]string{"next", "next", "next", "future", "future", "dup", "stale", "underfunded", "lowfee-a2u", "a2u", "uspend", "uspend", "reap", "commit-own", "commit-own", "commit-other", "upgrade", "upgrade", "rotate", "token-deposit", "token-spend", "token-spend"}).Draw(t, "op")
 		w := e.s.W
 		submit := func(tx types.Tx, desc string) error {
 			err := w.Submit(tx)
@@ -397,6 +400,21 @@ func runHistory(t *rapid.T, concurrent bool) {
 			tx, err := world.AccountToUTXO(from, w.App.GetNonce(from.Addr), new(big.Int).Add(tot, fee), []types.DestEntry{e.s.Wallets[0].Dest(0, tot)}, common.EmptyAddress, big.NewInt(0))
 			if err == nil {
 				submit(tx, "account->confidential with too low a fee")
+			}
+		case "token-deposit":
+			// a non-native token enters the confidential pool: amount from the token balance, fee from the native one
+			if g := e.s.GenTokenDeposit(t); g != nil {
+				if submit(g.Tx, g.Desc) == nil {
+					vstat.Label("token_deposit_admitted")
+				}
+			}
+		case "token-spend":
+			// a confidential token spend: a generated account signs it and pays the fee (it may not be able to)
+			if g := e.s.GenTokenSpend(t); g != nil {
+				if err := submit(g.Tx, g.Desc); err == nil {
+					e.pendingU[g.Tx.Hash()] = g.KeyImages
+					vstat.Label("token_spend_admitted")
+				}
 			}
 		case "upgrade":
 			// a contract upgrade signed by a member of the committed signer set (or, stale, by the genesis signer)
